@@ -140,6 +140,25 @@ for _n, _b in [('ValueError', 'Exception'), ('KeyError', 'Exception'), ('IndexEr
     BUILTIN_EXC[_n] = make_builtin_exc(_n, BUILTIN_EXC[_b])
 
 
+CLOCK = [0]      # allocation clock: every mutable value of the interpreted program records when it was created
+
+
+def tick():
+    CLOCK[0] += 1
+    return CLOCK[0]
+
+
+class Poison:
+    """Binding of a variable whose value the proof rule in force does not know (assigned in a cut loop body but not
+    described by the invariant's havoc): reading it makes the function undecided (rules R1 / R6, frame condition)."""
+
+    def __init__(self, name, why):
+        self.name, self.why = name, why
+
+    def __repr__(self):
+        return f'<poison {self.name}>'
+
+
 class Obj:
     """Instance of an interpreted class (reference semantics)."""
     _n = 0
@@ -149,6 +168,7 @@ class Obj:
         self.fields = fields if fields is not None else {}
         Obj._n += 1
         self.oid = Obj._n
+        self.born = tick()
 
     def __repr__(self):
         return f'<{self.cls.name} obj {self.fields if len(str(self.fields)) < 120 else "..."}>'
@@ -233,10 +253,11 @@ class Opaque:
 # ------------------------------------------------------------------ containers -------------
 class VList:
     """Python list with concrete length; elements may be symbolic. Reference semantics."""
-    __slots__ = ('items',)
+    __slots__ = ('items', 'born')
 
     def __init__(self, items=()):
         self.items = list(items)
+        self.born = tick()
 
     def __repr__(self):
         return f'VList({self.items})'
@@ -245,20 +266,22 @@ class VList:
 class VDict:
     """dict with concrete (hashable python / EnumMember / Obj identity) keys; insertion ordered.
     Symbolic keys are looked up by ite-chains (see Interp.dict_get)."""
-    __slots__ = ('d', 'default_factory')
+    __slots__ = ('d', 'default_factory', 'born')
 
     def __init__(self, d=None, default_factory=None):
         self.d = dict(d or {})
         self.default_factory = default_factory
+        self.born = tick()
 
     def __repr__(self):
         return f'VDict({self.d})'
 
 
 class VSet:
-    __slots__ = ('items',)
+    __slots__ = ('items', 'born')
 
     def __init__(self, items=()):
+        self.born = tick()
         self.items = []
         for i in items:
             if i not in self.items:
